@@ -71,7 +71,8 @@ Theorem C13_meaning_succeeds_ws : forall ws a l s r,
 Proof. exact meaning_succeeds_ws. Qed.
 Theorem C13_gap_meaning : forall ws x y,
   gap_ws ws x y = true <->
-  x <= y /\ y <= length ws /\ forall p, x <= p < y -> nth p ws false = true.
+  x <= y /\ y <= length ws /\ y - x <= WHITESPACE_LIMIT
+  /\ forall p, x <= p < y -> nth p ws false = true.
 Proof. exact gap_ws_meaning. Qed.
 Theorem C13_meaning_samebegin : forall ws a l w s r,
   test_pair ws (O SameBegin a false l w) s r = true <-> tb s = tb r.
